@@ -272,3 +272,504 @@ Proof.
   2:{ rewrite !app_length. pose proof (render_headers_length (g_headers g)). lia. }
   cbn [rev app]. rewrite body_of_flat_render by assumption. reflexivity.
 Qed.
+
+(* ------------------------------------------------------------------------------------------------ *)
+(* 3. field names: case-insensitive, values and same-name order kept                                 *)
+(* ------------------------------------------------------------------------------------------------ *)
+Lemma hname_eqb_eq a b : hname_eqb a b = true <-> a = b.
+Proof.
+  destruct a as [i|x], b as [j|y]; cbn [hname_eqb]; split; intro H; try discriminate.
+  - apply N.eqb_eq in H. now subst.
+  - injection H as ->. apply N.eqb_refl.
+  - apply beq_eq in H. now subst.
+  - injection H as ->. apply beq_refl.
+Qed.
+
+Lemma hname_eqb_refl a : hname_eqb a a = true.
+Proof. now apply hname_eqb_eq. Qed.
+
+Lemma hname_of_lower a : hname_of (ascii_lower a) = hname_of a.
+Proof. unfold hname_of. now rewrite ascii_lower_idem. Qed.
+
+(* the generated name table is injective: two lower-case names of the same variant are the same name *)
+Lemma header_parse_table_inj :
+  forallb (fun e1 => forallb (fun e2 => negb (snd e1 =? snd e2) || beq (fst e1) (fst e2)) header_parse_table)
+          header_parse_table = true.
+Proof. vm_compute. reflexivity. Qed.
+
+Lemma hname_of_eq_iff a b : hname_of a = hname_of b <-> ascii_lower a = ascii_lower b.
+Proof.
+  split; [|intro H; unfold hname_of; now rewrite H].
+  unfold hname_of. intro H.
+  destruct (assoc_bytes (ascii_lower a) header_parse_table) as [i|] eqn:Ea,
+           (assoc_bytes (ascii_lower b) header_parse_table) as [j|] eqn:Eb; try discriminate.
+  - injection H as <-. apply assoc_bytes_In in Ea, Eb.
+    pose proof (proj1 (forallb_forall _ _) header_parse_table_inj _ Ea) as T.
+    pose proof (proj1 (forallb_forall _ _) T _ Eb) as T'. cbn [fst snd] in T'.
+    rewrite N.eqb_refl in T'. cbn [negb orb] in T'. now apply beq_eq.
+  - now injection H.
+Qed.
+
+Lemma hname_eqb_of a b : hname_eqb (hname_of a) (hname_of b) = ci_eqb a b.
+Proof.
+  apply Bool.eq_true_iff_eq. unfold ci_eqb. rewrite hname_eqb_eq, hname_of_eq_iff, beq_true_iff. reflexivity.
+Qed.
+
+Lemma hget_hd_error n hs : hget n hs = hd_error (hget_all n hs).
+Proof.
+  unfold hget_all. induction hs as [|[n' v] hs IH]; cbn [hget filter map fst]; [reflexivity|].
+  destruct (hname_eqb n n'); [reflexivity | exact IH].
+Qed.
+
+Lemma hget_all_denote n hs :
+  hget_all (hname_of n) (denote_headers hs) = map gh_value (filter (fun h => ci_eqb n (gh_name h)) hs).
+Proof.
+  unfold hget_all, denote_headers. induction hs as [|h hs IH]; [reflexivity|].
+  cbn [map filter]. unfold denote_header at 1. cbn [fst]. rewrite hname_eqb_of.
+  destruct (ci_eqb n (gh_name h)); cbn [map snd]; now rewrite IH.
+Qed.
+
+Lemma hget_denote n hs :
+  hget (hname_of n) (denote_headers hs) = hd_error (map gh_value (filter (fun h => ci_eqb n (gh_name h)) hs)).
+Proof. now rewrite hget_hd_error, hget_all_denote. Qed.
+
+Lemma names_case_insensitive :
+  (forall a b, ascii_lower a = ascii_lower b <-> hname_of a = hname_of b) /\
+  (forall n hs, hget_all (hname_of n) (denote_headers hs)
+                = map gh_value (filter (fun h => ci_eqb n (gh_name h)) hs)) /\
+  (forall n hs, hget (hname_of n) (denote_headers hs)
+                = hd_error (map gh_value (filter (fun h => ci_eqb n (gh_name h)) hs))).
+Proof.
+  split; [|split].
+  - intros a b. symmetry. apply hname_of_eq_iff.
+  - exact hget_all_denote.
+  - exact hget_denote.
+Qed.
+
+(* ------------------------------------------------------------------------------------------------ *)
+(* 4. Headers::iter: hsort is a stable sort                                                          *)
+(* ------------------------------------------------------------------------------------------------ *)
+From Coq Require Import Permutation.
+
+Lemma bcmp_refl a : bcmp a a = Eq.
+Proof. induction a as [|x a IH]; cbn [bcmp]; [reflexivity|]. now rewrite N.compare_refl. Qed.
+
+Lemma hname_le_refl a : hname_le a a = true.
+Proof. unfold hname_le. now rewrite N.eqb_refl, bcmp_refl. Qed.
+
+Lemma hinsert_perm h l : Permutation (hinsert h l) (h :: l).
+Proof.
+  induction l as [|x l IH]; cbn [hinsert]; [reflexivity|].
+  destruct (hname_le (fst h) (fst x)); [reflexivity|].
+  rewrite IH. apply perm_swap.
+Qed.
+
+Lemma hsort_perm l : Permutation (hsort l) l.
+Proof.
+  induction l as [|h l IH]; [reflexivity|]. unfold hsort. cbn [fold_right]. fold (hsort l).
+  rewrite hinsert_perm. now constructor.
+Qed.
+
+Lemma hinsert_filter n h l :
+  filter (fun x => hname_eqb n (fst x)) (hinsert h l) =
+  if hname_eqb n (fst h) then h :: filter (fun x => hname_eqb n (fst x)) l
+  else filter (fun x => hname_eqb n (fst x)) l.
+Proof.
+  induction l as [|x l IH]; cbn [hinsert filter]; [reflexivity|].
+  destruct (hname_le (fst h) (fst x)) eqn:Le; cbn [filter]; [reflexivity|].
+  rewrite IH. destruct (hname_eqb n (fst h)) eqn:Eh, (hname_eqb n (fst x)) eqn:Ex; try reflexivity.
+  apply hname_eqb_eq in Eh, Ex. rewrite <- Eh, <- Ex, hname_le_refl in Le. discriminate.
+Qed.
+
+(* the headers of one name keep their arrival order *)
+Lemma hsort_filter n l :
+  filter (fun x => hname_eqb n (fst x)) (hsort l) = filter (fun x => hname_eqb n (fst x)) l.
+Proof.
+  induction l as [|h l IH]; [reflexivity|]. unfold hsort. cbn [fold_right]. fold (hsort l).
+  rewrite hinsert_filter, IH. reflexivity.
+Qed.
+
+Lemma hget_all_hsort n l : hget_all n (hsort l) = hget_all n l.
+Proof. unfold hget_all. now rewrite hsort_filter. Qed.
+
+Lemma hget_hsort n l : hget n (hsort l) = hget n l.
+Proof. now rewrite !hget_hd_error, hget_all_hsort. Qed.
+
+Lemma hsort_nil_iff l : hsort l = [] <-> l = [].
+Proof.
+  split; [|now intros ->]. intro H. pose proof (hsort_perm l) as P. rewrite H in P. now apply Permutation_nil.
+Qed.
+
+Lemma hsort_Forall (P : header -> Prop) l : Forall P l -> Forall P (hsort l).
+Proof.
+  intro H. apply Forall_forall. intros x Hin. apply (proj1 (Forall_forall _ _) H).
+  apply (Permutation_in _ (hsort_perm l)). exact Hin.
+Qed.
+
+Lemma address_of_hsort ipp l p : address_of ipp (hsort l) p = address_of ipp l p.
+Proof. unfold address_of. now rewrite hget_hsort. Qed.
+
+(* ------------------------------------------------------------------------------------------------ *)
+(* 5. what a successfully parsed request looks like                                                  *)
+(* ------------------------------------------------------------------------------------------------ *)
+
+(* a line delivered by read_until(LF): LF can only be its last byte *)
+Definition lf_last (line : bytes) : Prop := forall x z y, line = x ++ z :: y -> nob LF x = true.
+
+Lemma app_eq_prefix {A} (a x : list A) b y : a ++ b = x ++ y -> (length x <= length a)%nat -> x = firstn (length x) a.
+Proof.
+  revert x. induction a as [|c a IH]; intros x E Hl.
+  - destruct x; [reflexivity | cbn [length] in Hl; lia].
+  - destruct x as [|d x]; [reflexivity|]. cbn [app] in E. injection E as -> E. cbn [length firstn]. f_equal.
+    apply IH; [exact E | cbn [length] in Hl; lia].
+Qed.
+
+Lemma read_until_flat_lf_last l line rest : read_until_flat LF l = (line, rest) -> lf_last line /\ l = line ++ rest.
+Proof.
+  unfold read_until_flat. destruct (split_incl LF l) as [[a b]|] eqn:E; intro H; injection H as <- <-.
+  - apply split_incl_some in E as (a' & -> & Hn & ->). split; [|now rewrite <- app_assoc].
+    intros x z y Hx.
+    assert (Hl : (length x <= length a')%nat).
+    { apply (f_equal (@length N)) in Hx. rewrite !app_length in Hx. cbn [length] in Hx. lia. }
+    rewrite (app_eq_prefix _ _ _ _ Hx Hl). now apply nob_firstn.
+  - apply split_incl_none_inv in E. split; [|now rewrite app_nil_r].
+    intros x z y ->. rewrite nob_app in E. now apply andb_true_iff in E as [E _].
+Qed.
+
+(* ---- start line ---- *)
+Lemma parse_start_line_inv L m uri query version :
+  parse_start_line L = Some (m, uri, query, version) ->
+  exists mname target tail,
+    L = mname ++ SP :: target ++ SP :: (version ++ CRLF) ++ tail /\
+    (tail = [] \/ exists t, tail = SP :: t) /\
+    assoc_bytes mname method_parse_table = Some m /\
+    utf8 L /\ nob SP target = true /\ nob SP version = true /\ version <> [] /\
+    (match split_once QMARK target with Some (u, q) => (u, q) | None => (target, []) end) = (uri, query).
+Proof.
+  unfold parse_start_line. destruct (utf8_valid L) eqn:U; [|discriminate]. cbn [negb].
+  destruct (split_on SP L) as [|mname [|target [|v more]]] eqn:E; try discriminate.
+  destruct (assoc_bytes mname method_parse_table) as [mi|] eqn:Em; [|discriminate].
+  fold QMARK.
+  destruct (match split_once QMARK target with Some (u, q) => (u, q) | None => (target, []) end) as [u q] eqn:Et.
+  destruct (strip_crlf v) as [x|] eqn:Ev; [|discriminate].
+  destruct x as [|x0 x]; [discriminate|]. intro H. injection H as <- <- <- <-.
+  apply strip_crlf_some in Ev. subst v.
+  apply split_on_inv in E as [_ [[E _]|(l1 & -> & E1)]]; [discriminate|].
+  apply split_on_inv in E1 as [Tsp [[E1 _]|(l2 & -> & E2)]]; [discriminate|].
+  apply split_on_inv in E2 as [Vsp E2].
+  rewrite nob_app in Vsp. apply andb_true_iff in Vsp as [Vsp _].
+  destruct E2 as [[-> ->]|(l3 & -> & E3)].
+  - exists mname, target, []. rewrite app_nil_r.
+    repeat split; try assumption; try discriminate; try (now apply utf8_valid_true). now left.
+  - exists mname, target, (SP :: l3).
+    repeat split; try assumption; try discriminate; try (now apply utf8_valid_true).
+    right. eauto.
+Qed.
+
+Record start_ok (m : N) (uri query version : bytes) : Prop := {
+  so_method : wf_method m = true;
+  so_uri_sp : nob SP uri = true;
+  so_uri_lf : nob LF uri = true;
+  so_uri_q : nob QMARK uri = true;
+  so_uri_u : utf8 uri;
+  so_q_sp : nob SP query = true;
+  so_q_lf : nob LF query = true;
+  so_q_u : utf8 query;
+  so_v_ne : version <> [];
+  so_v_sp : nob SP version = true;
+  so_v_lf : nob LF version = true;
+  so_v_u : utf8 version }.
+
+Lemma start_line_ok first line m uri query version :
+  lf_last line -> parse_start_line (first :: line) = Some (m, uri, query, version) -> start_ok m uri query version.
+Proof.
+  intros LL H. apply parse_start_line_inv in H as (mname & target & tail & EL & Htail & Em & U & Tsp & Vsp & Vne & Et).
+  destruct mname as [|f m']; [vm_compute in Em; discriminate|].
+  cbn [app] in EL. injection EL as <- EL.
+  (* LF *)
+  assert (Tlf : nob LF target = true).
+  { assert (X : nob LF (m' ++ SP :: target) = true).
+    { apply (LL _ SP ((version ++ CRLF) ++ tail)). rewrite EL. repeat (rewrite <- app_assoc; cbn [app]). reflexivity. }
+    rewrite nob_app, nob_cons in X. apply andb_true_iff in X as [_ X]. now apply andb_true_iff in X as [_ X]. }
+  assert (Vlf : nob LF version = true).
+  { assert (X : nob LF (m' ++ SP :: target ++ SP :: version) = true).
+    { apply (LL _ CR (LF :: tail)). rewrite EL. repeat (rewrite <- app_assoc; cbn [app]). reflexivity. }
+    rewrite nob_app, nob_cons, nob_app, nob_cons in X.
+    apply andb_true_iff in X as [_ X]. apply andb_true_iff in X as [_ X]. apply andb_true_iff in X as [_ X].
+    now apply andb_true_iff in X as [_ X]. }
+  (* UTF-8 *)
+  rewrite EL in U.
+  change (first :: m' ++ SP :: target ++ SP :: (version ++ CRLF) ++ tail)
+    with ((first :: m') ++ SP :: target ++ SP :: (version ++ CRLF) ++ tail) in U.
+  apply utf8_split_ascii in U as [_ U]; [|reflexivity].
+  apply utf8_split_ascii in U as [Tu U]; [|reflexivity].
+  assert (Vu : utf8 version).
+  { destruct Htail as [->|(t & ->)].
+    - rewrite app_nil_r in U. apply utf8_split_ascii in U as [U _]; [exact U | reflexivity].
+    - apply utf8_split_ascii in U as [U _]; [|reflexivity].
+      apply utf8_split_ascii in U as [U _]; [exact U | reflexivity]. }
+  (* target = uri [? query] *)
+  assert (Huq : nob SP uri = true /\ nob LF uri = true /\ nob QMARK uri = true /\ utf8 uri /\
+                nob SP query = true /\ nob LF query = true /\ utf8 query).
+  { destruct (split_once QMARK target) as [[u q]|] eqn:Es; injection Et as <- <-.
+    - apply split_once_some in Es as [-> Hq]. rewrite nob_app, nob_cons in Tsp, Tlf.
+      apply andb_true_iff in Tsp as [S1 S2]. apply andb_true_iff in S2 as [_ S2].
+      apply andb_true_iff in Tlf as [L1 L2]. apply andb_true_iff in L2 as [_ L2].
+      apply utf8_split_ascii in Tu as [U1 U2]; [|reflexivity]. now repeat split.
+    - apply split_once_none_inv in Es. repeat split; try assumption; try reflexivity. constructor. }
+  destruct Huq as (A1 & A2 & A3 & A4 & A5 & A6 & A7).
+  constructor; try assumption. now apply (method_parse_ok (first :: m')).
+Qed.
+
+(* ---- header fields ---- *)
+Record hdr_ok (h : header) : Prop := {
+  ho_canon : hname_of (hname_str (fst h)) = fst h;
+  ho_colon : nob COLON (hname_str (fst h)) = true;
+  ho_lf : nob LF (hname_str (fst h)) = true;
+  ho_u : utf8 (hname_str (fst h));
+  ho_vlf : nob LF (snd h) = true;
+  ho_vu : utf8 (snd h);
+  ho_vtrim : ws_prefix_len (snd h) = 0%nat }.
+
+(* every variant of the generated header table prints as a name that parses back to it, without ':' or LF *)
+Definition known_ok (i : N) : bool :=
+  let s := hname_str (HKnown i) in
+  hname_eqb (hname_of s) (HKnown i) && nob COLON s && nob LF s && utf8_valid s.
+
+Lemma header_table_ok : forallb (fun e => known_ok (snd e)) header_parse_table = true.
+Proof. vm_compute. reflexivity. Qed.
+
+Lemma hname_canon n (h := hname_of n) :
+  nob COLON n = true -> nob LF n = true -> utf8 n ->
+  hname_of (hname_str h) = h /\ nob COLON (hname_str h) = true /\ nob LF (hname_str h) = true /\ utf8 (hname_str h).
+Proof.
+  intros Hc Hl Hu. subst h.
+  destruct (assoc_bytes (ascii_lower n) header_parse_table) as [i|] eqn:E.
+  - assert (Hn : hname_of n = HKnown i) by (unfold hname_of; now rewrite E). rewrite Hn.
+    apply assoc_bytes_In in E. pose proof (proj1 (forallb_forall _ _) header_table_ok _ E) as T.
+    cbn [snd] in T. unfold known_ok in T.
+    apply andb_true_iff in T as [T T4]. apply andb_true_iff in T as [T T3]. apply andb_true_iff in T as [T1 T2].
+    apply hname_eqb_eq in T1. repeat split; try assumption. now apply utf8_valid_true.
+  - assert (Hn : hname_of n = HCustom (ascii_lower n)) by (unfold hname_of; now rewrite E). rewrite Hn.
+    cbn [hname_str]. repeat split.
+    + unfold hname_of. now rewrite ascii_lower_idem, E.
+    + now rewrite nob_ascii_lower.
+    + now rewrite nob_ascii_lower.
+    + now apply utf8_ascii_lower.
+Qed.
+
+Lemma parse_header_line_ok line h : lf_last line -> utf8 line -> parse_header_line line = Some h -> hdr_ok h.
+Proof.
+  intros LL U. unfold parse_header_line.
+  destruct (strip_crlf line) as [l|] eqn:Es; [|discriminate]. apply strip_crlf_some in Es. subst line.
+  destruct (split_once COLON l) as [[n v]|] eqn:Ec; [|discriminate]. intro H. injection H as <-.
+  apply split_once_some in Ec as [-> Hn].
+  assert (Llf : nob LF (n ++ COLON :: v) = true) by (apply (LL _ CR [LF]); reflexivity).
+  rewrite nob_app, nob_cons in Llf. apply andb_true_iff in Llf as [Nlf Vlf]. apply andb_true_iff in Vlf as [_ Vlf].
+  apply utf8_split_ascii in U as [U _]; [|reflexivity].
+  apply utf8_split_ascii in U as [Nu Vu]; [|reflexivity].
+  destruct (hname_canon n Hn Nlf Nu) as (C1 & C2 & C3 & C4).
+  constructor; cbn [fst snd]; try assumption.
+  - now apply nob_trim_start.
+  - now apply utf8_trim_start.
+  - apply trim_start_ws0.
+Qed.
+
+Lemma header_loop_flat_ok fuel : forall l acc hs rest,
+  header_loop_flat fuel l acc = Ok (hs, rest) -> Forall hdr_ok acc -> Forall hdr_ok hs.
+Proof.
+  induction fuel as [|f IH]; intros l acc hs rest H Hacc; cbn [header_loop_flat] in H; [discriminate|].
+  destruct (read_until_flat LF l) as [line rest0] eqn:Er. apply read_until_flat_lf_last in Er as [LL _].
+  destruct (utf8_valid line) eqn:U; [|discriminate]. cbn [negb] in H.
+  destruct (beq line CRLF).
+  - injection H as <- <-. apply Forall_rev. exact Hacc.
+  - destruct (parse_header_line line) as [h|] eqn:Ep; [|discriminate].
+    apply (IH _ _ _ _ H). constructor; [|exact Hacc].
+    apply (parse_header_line_ok line); [exact LL | now apply utf8_valid_true | exact Ep].
+Qed.
+
+(* ---- body ---- *)
+Definition body_ok (hs : headers) (c : option bytes) : Prop :=
+  match hget (HKnown H_ContentLength) hs, c with
+  | None, None => True
+  | Some cl, Some b => parse_usize cl = Some (N.of_nat (length b))
+  | _, _ => False
+  end.
+
+Lemma body_of_flat_ok hs l c rest : body_of_flat E_Stream hs l = Ok (c, rest) -> body_ok hs c.
+Proof.
+  unfold body_of_flat, body_ok. destruct (hget (HKnown H_ContentLength) hs) as [cl|].
+  - destruct (parse_usize cl) as [n|]; [|discriminate].
+    unfold read_exact_flat_N, read_exact_flat. destruct (N.of_nat (length l) <? n) eqn:E1; [discriminate|].
+    destruct (N.to_nat n <=? length l)%nat eqn:E2; [|discriminate]. intro H. injection H as <- <-.
+    apply Nat.leb_le in E2. rewrite firstn_length_le by assumption. now rewrite N2Nat.id.
+  - intro H. now injection H as <- <-.
+Qed.
+
+(* ---- the request ---- *)
+Record parsed_ok (ipp : bytes -> option bytes) (p : peer) (r : request) : Prop := {
+  po_start : start_ok (r_method r) (r_uri r) (r_query r) (r_version r);
+  po_headers : Forall hdr_ok (r_headers r);
+  po_body : body_ok (r_headers r) (r_content r);
+  po_addr : r_addr r = address_of ipp (r_headers r) p }.
+
+Lemma parse_request_flat_ok ipp p b r rest : parse_request_flat ipp p b = Ok (r, rest) -> parsed_ok ipp p r.
+Proof.
+  unfold parse_request_flat. destruct b as [|first l0]; [discriminate|].
+  destruct (read_until_flat LF l0) as [line l1] eqn:Er. apply read_until_flat_lf_last in Er as [LL _].
+  destruct (parse_start_line (first :: line)) as [[[[m uri] query] version]|] eqn:Es; [|discriminate].
+  destruct (header_loop_flat (S (length l1)) l1 []) as [[hs l2]|e|w] eqn:Eh; try discriminate.
+  destruct (body_of_flat E_Stream hs l2) as [[c l3]|e|w] eqn:Eb; try discriminate.
+  intro H. injection H as <- <-. constructor; cbn [r_method r_uri r_query r_version r_headers r_content r_addr].
+  - now apply (start_line_ok first line).
+  - apply (header_loop_flat_ok _ _ _ _ _ Eh). constructor.
+  - now apply (body_of_flat_ok _ _ _ _ Eb).
+  - reflexivity.
+Qed.
+
+(* ------------------------------------------------------------------------------------------------ *)
+(* 6. round trip: Vec<u8>::from(Request) writes a well-formed request that denotes the same request  *)
+(* ------------------------------------------------------------------------------------------------ *)
+Definition gh_of (h : header) : gheader := {| gh_name := hname_str (fst h); gh_sep := [SP]; gh_value := snd h |}.
+
+Definition g_of (r : request) : greq :=
+  {| g_method := r_method r; g_path := r_uri r;
+     g_query := match r_query r with [] => None | q => Some q end;
+     g_version := r_version r;
+     g_headers := map gh_of (hsort (r_headers r));
+     g_body := r_content r |}.
+
+Lemma join_crlf_cons x l : l <> [] -> join_crlf (x :: l) = x ++ CRLF ++ join_crlf l.
+Proof. destruct l; [contradiction | reflexivity]. Qed.
+
+Lemma join_crlf_lines hs : hs <> [] ->
+  join_crlf (map render_header hs) ++ CRLF = render_headers (map gh_of hs).
+Proof.
+  induction hs as [|h hs IH]; intro Hne; [contradiction|].
+  unfold render_headers. cbn [map concat]. fold (render_headers (map gh_of hs)).
+  assert (E : render_header_line (gh_of h) = render_header h ++ CRLF).
+  { unfold render_header_line, render_header, gh_of. cbn [gh_name gh_sep gh_value]. now rewrite <- !app_assoc. }
+  rewrite E. destruct hs as [|h' hs].
+  - cbn [map join_crlf render_headers concat]. now rewrite app_nil_r.
+  - rewrite join_crlf_cons by discriminate. rewrite <- !app_assoc. do 2 f_equal. apply IH. discriminate.
+Qed.
+
+Lemma serialize_render r :
+  (r_headers r = [] -> r_content r = None) ->
+  serialize_request r = render (g_of r) ++ roundtrip_residue r.
+Proof.
+  intro Hb. unfold serialize_request, render, roundtrip_residue.
+  assert (Es : (let start := match r_query r with
+                | [] => method_str (r_method r) ++ [SP] ++ r_uri r ++ [SP] ++ r_version r
+                | q => method_str (r_method r) ++ [SP] ++ r_uri r ++ [63] ++ q ++ [SP] ++ r_version r
+                end in start) = render_start (g_of r)).
+  { unfold render_start, render_target, g_of. cbn [g_method g_path g_query g_version].
+    destruct (r_query r) as [|q0 q]; cbn zeta; [now rewrite app_nil_r|]. rewrite <- !app_assoc. reflexivity. }
+  cbn zeta in Es. rewrite Es. rewrite <- !app_assoc. f_equal. f_equal.
+  unfold render_body. cbn [g_headers g_body g_of].
+  destruct (r_headers r) as [|h hs] eqn:Eh.
+  - rewrite Hb by reflexivity. reflexivity.
+  - assert (Hne : hsort (h :: hs) <> []) by (intro X; apply (proj1 (hsort_nil_iff _)) in X; discriminate X).
+    rewrite <- (join_crlf_lines _ Hne). now rewrite <- !app_assoc, app_nil_r.
+Qed.
+
+Lemma denote_headers_gh_of hs : Forall hdr_ok hs -> denote_headers (map gh_of hs) = hs.
+Proof.
+  induction 1 as [|[n v] hs Hh Hhs IH]; [reflexivity|].
+  cbn [map denote_headers]. fold (denote_headers (map gh_of hs)). rewrite IH. f_equal.
+  unfold denote_header, gh_of. cbn [gh_name gh_value fst snd]. f_equal. exact (ho_canon _ Hh).
+Qed.
+
+Lemma wf_header_gh_of h : hdr_ok h -> wf_header (gh_of h) = true.
+Proof.
+  intros [C1 C2 C3 C4 V1 V2 V3]. unfold wf_header, gh_of. cbn [gh_name gh_sep gh_value].
+  rewrite C2, C3, V1, (utf8_true_valid _ C4), (utf8_true_valid _ V2).
+  rewrite (trim_start_fixed _ V3), beq_refl. reflexivity.
+Qed.
+
+Lemma body_ok_no_headers c : body_ok [] c -> c = None.
+Proof. unfold body_ok. cbn [hget]. destruct c; [contradiction | reflexivity]. Qed.
+
+Lemma wf_greq_g_of ipp p r : parsed_ok ipp p r -> wf_greq (g_of r) = true.
+Proof.
+  intros [[M U1 U2 U3 U4 Q1 Q2 Q3 V0 V1 V2 V3] Hh Hb _]. unfold wf_greq, g_of.
+  cbn [g_method g_path g_query g_version g_headers].
+  rewrite M, U1, U2, U3, (utf8_true_valid _ U4), V1, V2, (utf8_true_valid _ V3). cbn [andb].
+  apply utf8_true_valid in Q3. revert Q1 Q2 Q3. destruct (r_query r) as [|q0 q]; intros Q1 Q2 Q3;
+    rewrite ?Q1, ?Q2, ?Q3; cbn [andb].
+  all: replace (beq (r_version r) []) with false by (symmetry; now apply beq_false_iff).
+  all: cbn [negb andb].
+  all: assert (Hs : Forall hdr_ok (hsort (r_headers r))) by now apply hsort_Forall.
+  all: apply andb_true_iff; split.
+  all: try (apply forallb_forall; intros gh Hin; apply in_map_iff in Hin as (h & <- & Hin);
+            apply wf_header_gh_of; exact (proj1 (Forall_forall _ _) Hs h Hin)).
+  all: unfold wf_body; cbn [g_headers g_body]; rewrite denote_headers_gh_of by assumption;
+       rewrite hget_hsort; unfold body_ok in Hb;
+       destruct (hget (HKnown H_ContentLength) (r_headers r)) as [cl|], (r_content r) as [b|]; try contradiction;
+       [rewrite Hb; apply N.eqb_refl | reflexivity].
+Qed.
+
+(* the request the second parse returns: the same, with the header fields in Headers::iter order *)
+Definition sorted_request (r : request) : request :=
+  {| r_method := r_method r; r_uri := r_uri r; r_query := r_query r; r_version := r_version r;
+     r_headers := hsort (r_headers r); r_content := r_content r; r_addr := r_addr r |}.
+
+Lemma denote_g_of ipp p r : parsed_ok ipp p r -> denote ipp (g_of r) p = sorted_request r.
+Proof.
+  intros [_ Hh _ Ha]. unfold denote, sorted_request, g_of. cbn [g_method g_path g_query g_version g_headers g_body].
+  rewrite denote_headers_gh_of by now apply hsort_Forall.
+  rewrite address_of_hsort, <- Ha. f_equal. now destruct (r_query r).
+Qed.
+
+Lemma sorted_request_equiv r : req_equiv (sorted_request r) r.
+Proof. unfold req_equiv, sorted_request. cbn. repeat split. intro n. apply hget_all_hsort. Qed.
+
+Lemma roundtrip_parsed ipp p r rest' :
+  parsed_ok ipp p r ->
+  parse_request_flat ipp p (serialize_request r ++ rest') = Ok (sorted_request r, roundtrip_residue r ++ rest').
+Proof.
+  intro P. rewrite serialize_render.
+  - rewrite <- app_assoc, parse_faithful by (now apply (wf_greq_g_of ipp p)). now rewrite (denote_g_of ipp p).
+  - intro E. apply body_ok_no_headers. rewrite <- E. exact (po_body _ _ _ P).
+Qed.
+
+Lemma roundtrip ipp p b r rest rest' :
+  parse_request_flat ipp p b = Ok (r, rest) ->
+  exists r', parse_request_flat ipp p (serialize_request r ++ rest') = Ok (r', roundtrip_residue r ++ rest') /\
+             req_equiv r' r /\ r_headers r' = hsort (r_headers r).
+Proof.
+  intro H. apply parse_request_flat_ok in H. exists (sorted_request r). split; [|split].
+  - now apply roundtrip_parsed.
+  - apply sorted_request_equiv.
+  - reflexivity.
+Qed.
+
+Lemma roundtrip_exact ipp p b r rest rest' :
+  parse_request_flat ipp p b = Ok (r, rest) -> r_headers r <> [] ->
+  exists r', parse_request_flat ipp p (serialize_request r ++ rest') = Ok (r', rest') /\ req_equiv r' r.
+Proof.
+  intros H Hne. destruct (roundtrip ipp p b r rest rest' H) as (r' & H1 & H2 & _). exists r'. split; [|exact H2].
+  rewrite H1. unfold roundtrip_residue. destruct (r_headers r); [contradiction | reflexivity].
+Qed.
+
+(* with no header field at all the serialiser writes one CRLF too many; it is left unread (not part of the request) *)
+Lemma roundtrip_residue_witness :
+  exists b r, parse_request_flat ipv4_parse {| p_ip := [49;46;50;46;51;46;52]; p_port := 80 |} b = Ok (r, []) /\
+              parse_request_flat ipv4_parse {| p_ip := [49;46;50;46;51;46;52]; p_port := 80 |} (serialize_request r)
+              = Ok (r, CRLF).
+Proof.
+  exists [71;69;84;32;47;32;72;84;84;80;47;49;46;49;13;10;13;10].
+  exists {| r_method := 0; r_uri := [47]; r_query := []; r_version := [72;84;84;80;47;49;46;49]; r_headers := [];
+            r_content := None;
+            r_addr := {| a_origin := [49;46;50;46;51;46;52]; a_proxies := []; a_port := 80 |} |}.
+  split; vm_compute; reflexivity.
+Qed.
+
+Lemma hsort_stable l :
+  Permutation (hsort l) l /\
+  (forall n, filter (fun h => hname_eqb n (fst h)) (hsort l) = filter (fun h => hname_eqb n (fst h)) l) /\
+  (forall n, hget_all n (hsort l) = hget_all n l) /\ (forall n, hget n (hsort l) = hget n l).
+Proof.
+  split; [apply hsort_perm|]. split; [intro n; apply hsort_filter|].
+  split; intro n; [apply hget_all_hsort | apply hget_hsort].
+Qed.
